@@ -8,7 +8,7 @@ src="$1"; name="$2"; shift; shift
 props="$@"
 wt=/tmp/wt/validate-$$
 git -C /repo worktree add -q --detach "$wt" HEAD || exit 1
-cleanup() { git -C /repo worktree remove --force "$wt" 2>/dev/null; git -C /repo checkout -- . 2>/dev/null; }
+cleanup() { git -C /repo worktree remove --force "$wt" 2>/dev/null; }
 trap cleanup EXIT
 cd "$wt"
 testname=$(grep -o 'func Test[A-Za-z0-9_]*' "$src/demo_test.go" | head -1 | sed 's/func //')
@@ -25,17 +25,16 @@ case "$suite" in ok*) ;; *) echo "SEED $name: INVALID (suite fails with the chan
 mkdir -p /verif/seeded/$name
 cp "$src/patch.diff" "$src/demo_test.go" /verif/seeded/$name/
 cd /verif
-git -C /repo apply "$src/patch.diff" || { echo "cannot apply to /repo"; exit 2; }
+# the validated worktree still has the change applied: run the checks against it (never against /repo)
 results=""
 for p in $props; do
-  out=$(timeout 1500 ./check $p quick -no-evidence 2>&1)
+  out=$(timeout 1500 ./check $p quick -no-evidence -repo "$wt" 2>&1)
   code=$?
   v=$(echo "$out" | grep -c "^VIOLATION")
   first=$(echo "$out" | grep -A1 "^VIOLATION" | sed -n 2p | cut -c1-260)
   echo "SEED $name: check $p exit=$code violations=$v $first"
   results="$results $p:exit$code:viol$v"
 done
-git -C /repo checkout -- .
 python3 - "$src" "$name" "$results" "$base_demo" "$with_demo" "$suite" <<'PY'
 import json,sys
 src,name,results,base,withd,suite=sys.argv[1:7]
